@@ -160,7 +160,7 @@ Section FLa.
   Definition cont_shape (cont : cterm) : Prop :=
     match cont with
     | CXVar _ _ _ => True
-    | CXCase _ _ _ => True
+    | CXCase _ _ ty => is_codata cp ty = false
     | CMu c v _ ty => c = CCns /\ is_codata cp ty = false /\ ~ In v (cnames (fvt cont))
     | _ => False
     end.
